@@ -244,9 +244,14 @@ type transcript struct {
 	elems   []elem
 	implKey [64]byte
 	ok      bool // baseline completed without any failure
+
+	noRecord bool // data packets are not recorded (long sessions)
 }
 
 func (t *transcript) push(kind string, b []byte, ignore bool, contents []byte) {
+	if t.noRecord {
+		return
+	}
 	t.elems = append(t.elems, elem{kind, len(t.toImpl), len(t.toImpl) + len(b), ignore, contents})
 	t.toImpl = append(t.toImpl, b...)
 }
@@ -262,7 +267,9 @@ func guard(f func() error) (err error) {
 	return f()
 }
 
-func isPanic(err error) bool { return err != nil && len(err.Error()) > 6 && err.Error()[:6] == "PANIC:" }
+func isPanic(err error) bool {
+	return err != nil && len(err.Error()) > 6 && err.Error()[:6] == "PANIC:"
+}
 
 // implHandshake1 runs the first impl step (key generation and first flight) with
 // the deterministic rand stream of the case.
@@ -336,7 +343,11 @@ func runInterop(cs caseSpec, x *ctx) *transcript {
 		if cs.ImplInit {
 			fail(fmt.Sprintf("interop/initiate-error/impl_garbage=%d", cs.GI), "InitiateV2Handshake returned %v", err)
 		} else {
-			fail(fmt.Sprintf("interop/respond-error/impl_garbage=%d/v1prefix_match=%d", cs.GI, cs.PrefixK), "RespondV2Handshake returned %v", err)
+			k := fmt.Sprintf("interop/respond-error/v1prefix_match=%d", cs.PrefixK)
+			if cs.PrefixK < 0 {
+				k = fmt.Sprintf("interop/respond-error/impl_garbage=%d", cs.GI)
+			}
+			fail(k, "RespondV2Handshake returned %v", err)
 		}
 		return tr
 	}
@@ -399,7 +410,19 @@ func runInterop(cs caseSpec, x *ctx) *transcript {
 	got := rw.out[64+cs.GI:]
 	if !bytes.Equal(got, want) {
 		d := firstDiff(got, want)
-		fail(fmt.Sprintf("interop/second-flight-mismatch/impl=%s/impl_garbage=%d/impl_decoys=%v", role, cs.GI, cs.DecI),
+		// locate the differing element: terminator or packet #k of the flight
+		at, pos := "terminator", 16
+		if d >= 16 {
+			at = "after-version-packet"
+			for k, n := range append(append([]int(nil), cs.DecI...), 0) {
+				pos += 3 + 1 + n + 16
+				if d < pos {
+					at = fmt.Sprintf("packet%d", k)
+					break
+				}
+			}
+		}
+		fail(fmt.Sprintf("interop/second-flight-mismatch/impl=%s/at=%s", role, at),
 			"impl's terminator||decoys||version bytes differ from BIP324 at offset %d: got %s want %s", d, trunc(got[min(d, len(got)):]), trunc(want[min(d, len(want)):]))
 		return tr
 	}
@@ -436,7 +459,12 @@ func runInterop(cs caseSpec, x *ctx) *transcript {
 
 	// ---- data phase: both directions interleaved
 	ni, nr := cs.i2rCount(), cs.r2iCount()
+	tr.noRecord = cs.Sched != "tamper"
 	for i := 0; i < ni || i < nr; i++ {
+		if rw.pos == len(rw.in) {
+			rw.in, rw.pos = rw.in[:0], 0
+		}
+		rw.out = rw.out[:0]
 		if i < ni {
 			size, ign := cs.i2r(i)
 			c := contents(0, i, size)
@@ -602,6 +630,33 @@ func runTampered(cs caseSpec, tr *transcript, T []byte, fd int, x *ctx) {
 		}
 	}
 	x.fail(cs, key("no-error"), "impl never reported an error; %s", desc())
+}
+
+// isLenByte reports whether stream offset off lies in the 3-byte encrypted
+// length of some packet.
+func (t *transcript) isLenByte(off int) bool {
+	for _, el := range t.elems {
+		if el.start <= off && off < el.end {
+			return (el.kind == "decoy" || el.kind == "version" || el.kind == "data") && off-el.start < 3
+		}
+	}
+	return false
+}
+
+// lenMSB reports whether off is the most significant byte of a packet's
+// encrypted length, and the index of that packet among the packet elements.
+func (t *transcript) lenMSB(off int) (int, bool) {
+	pj := 0
+	for _, el := range t.elems {
+		if el.kind != "decoy" && el.kind != "version" && el.kind != "data" {
+			continue
+		}
+		if el.start <= off && off < el.end {
+			return pj, off-el.start == 2
+		}
+		pj++
+	}
+	return 0, false
 }
 
 // packetElems returns the indices of packet elements (decoy/version/data).
